@@ -33,12 +33,12 @@ func init() {
 		Exhaustive:  nil,
 		Required:    []string{"field/l=0", "field/l=h", "field/h=32", "field/h=0", "order/ancestor-descendant", "order/left-right-subtrees", "order/equal", "order/h>=13"},
 		Families: func(c *mon.Config) []mon.Family {
-			hp := c.Pick(8, 10)
+			hp := c.Pick(8, 12)
 			return []mon.Family{
 				{Name: "fields-small", N: 13, Run: c10FieldsSmall},
-				{Name: "fields-large", N: 20 * c.Pick(20, 2000), Run: c10FieldsLarge},
+				{Name: "fields-large", N: 20 * c.Pick(100, 50000), Run: c10FieldsLarge},
 				{Name: "order-all-pairs", N: (1 << uint(hp+1)) * 2, Run: func(w *mon.W, idx int) { c10OrderAll(w, idx, hp) }},
-				{Name: "order-sampled", N: 20 * c.Pick(50, 5000), Run: c10OrderSampled},
+				{Name: "order-sampled", N: 20 * c.Pick(250, 100000), Run: c10OrderSampled},
 			}
 		},
 	})
